@@ -20,6 +20,7 @@ RULE = (
     "elements per element type."
     ' mesh_rules: every documented rule requested by point count on an affine mesh of every element type; returned_arrays: in-place use of the arrays a rule returns, every (type, matrix type) pair (non-trivial = every case).'
     " offered_counts: every integer count 1..40 per shape; counts Gauss() refuses are trivial, accepted ones are held to the docstring's order."
+    ' Round 8: mixed_orientation enumerates every 2D / 3D element type on a mesh merged with its mirror image (measure and polynomial integrals vs the exact integrals of the two halves).'
 )
 ASSUMPTIONS = [
     "documented degree taken from the docstrings of Gauss._Triangle/_Quadrangle/_Tetrahedron/"
@@ -428,3 +429,53 @@ def check_tapered_measure(case, rec):
 
 
 SUBS.append(Sub("tapered_measure", check_tapered_measure, enum=enum_tapered_measure, doc="volume, first moment and centroid of frusta"))
+
+
+# ------------------------------------------------------------------------------------------
+# (added by the lead, round 8) a mesh merged with its mirror image: one element group holds positively and negatively oriented
+# elements.  Measure, centroid and polynomial integrals (degree <= the documented degree of the mass rule, at least 1) are those
+# of the two halves: integral over the mirror image of f = integral over the half of f o S, S the reflection (exact reference)
+
+
+def enum_mixed_orientation(tier):
+    sq = [[0.0, 0.0], [1.2, 0.1], [1.0, 0.9], [0.1, 1.0]]
+    for et in gm.T2D + gm.T3D:
+        d3 = et in gm.T3D
+        shape = orc.shape_of(et)
+        r = dict(verts=sq, h=0.7 if not d3 else 1.3, elemType=et, organised=shape in ("QUAD", "HEXA"), extrude=[0.1, 0.0, 0.8] if d3 else None,
+                 layers=1 if d3 else 0, A=None, b=None, perm=None, orphans=0)
+        yield dict(recipe=r)
+
+
+def check_mixed_orientation(case, rec):
+    from EasyFEA import Mesh
+
+    r = case["recipe"]
+    et = r["elemType"]
+    dim = gm.dim_of(et)
+    half = gm.build(r)
+    types = gm.mesh_types(half)
+    sig = dict(elemType=et, types=types)
+    rec.label("mixed:" + types)
+    a = float(np.asarray(half.coord, float)[:, 0].max()) + 0.25  # mirror plane x = a, outside the body
+    mirror = half.copy()
+    mirror.Symmetry((a, 0.0, 0.0), (1.0, 0.0, 0.0))
+    merged = Mesh.Merge([half, mirror])
+    deg = max(1, min(mass_rule_degree(str(g.elemType)) for g in gm.main_groups(merged)))
+    polys = [("1", lambda x, y, z: 1.0 + 0 * x, 0), ("x", lambda x, y, z: x + 0.0, 1), ("y", lambda x, y, z: y + 0.0, 1)]
+    if deg >= 2:
+        polys += [("x*y", lambda x, y, z: x * y, 2), ("x**2", lambda x, y, z: x * x, 2)]
+    sgn = np.sign(gm.exact_integral(r, polys[0][1], 0))
+    meas = 2.0 * abs(gm.exact_integral(r, polys[0][1], 0))
+    for name, f, d in polys:
+        ex = sgn * (gm.exact_integral(r, f, d) + gm.exact_integral(r, lambda x, y, z, f=f: f(2.0 * a - x, y, z), d))
+        tot = sum(float(np.sum(g.Integrate_e(f, MatrixType.mass))) for g in gm.main_groups(merged))
+        rec.close(tot - ex, meas * (1.0 + abs(a)) ** d, TOL * 10, "mixed_orientation_integral",
+                  f"{types}: integral of {name} over a mesh merged with its mirror image: {tot!r} vs {ex!r}", poly=name, **sig)
+    m = merged.area if dim == 2 else merged.volume
+    rec.close(m - meas, meas, TOL * 10, "mixed_orientation_measure", f"{types}: measure {m!r} vs {meas!r}", **sig)
+    rec.nontrivial(True)
+
+
+SUBS.append(Sub("mixed_orientation", check_mixed_orientation, enum=enum_mixed_orientation,
+                doc="every 2D / 3D element type: measure and polynomial integrals over a mesh merged with its mirror image"))
